@@ -561,7 +561,10 @@ fn depth_sweep() -> Sweep {
 // against its reduct — `x op (1 + 1)` against `x op 2` — must succeed), and with a hole punched at each
 // of the first six positions of the left term, in both argument orders.
 fn stuck_pairs_sweep() -> Sweep {
-    let ts = Rc::new(crate::props::c06::stuck_operator_terms());
+    let mut ts = crate::props::c06::stuck_operator_terms();
+    // ... and conditionals stuck on a neutral application whose arguments are convertible, differently written integers
+    ts.extend(crate::props::c06::neutral_spine_terms().into_iter().filter(|(t, _)| t.contains(" if ")));
+    let ts = Rc::new(ts);
     let n = ts.len() as u64;
     let t2 = ts.clone();
     Sweep::new(
